@@ -120,7 +120,7 @@ theorem dictOK_dictOf (f : Nat) (kvs : List KV) (d : Dict) (hnd : (kvs.map (·.k
   exact hd k hk
 
 theorem get_eq_find (m : Mapping) (k : Bytes) :
-    m.get k = match m.kv.find? (fun e => e.key == k) with | some e => e.val | none => 0 := rfl
+    m.get k = ((m.kv.find? (fun e => e.key == k)).map (·.val)).getD 0 := rfl
 
 theorem mkNums_dictOf (c : Cfg) (hg : c.Good) (m : Mapping) (d : Dict)
     (hnd : (m.kv.map (·.key)).Nodup) (hd : DictOK (m.kv.map (·.key)) d) :
